@@ -4,5 +4,5 @@
 import sys
 sys.path[:0] = ['/repo' + "/pulser-core", '/repo' + "/pulser-simulation", "/verif"]
 from symx.replay import replay
-sys.exit(replay(check='checks.c13', kernel='history', shape={'device': 'virt', 'k': 4, 'first': 2},
-                assignment={'op1': 0, 'op2': 15, 'op3': 17}, label='typestate:VAR'))
+sys.exit(replay(check='checks.c13', kernel='history', shape={'device': 'virt', 'k': 3, 'first': 2},
+                assignment={'op1': 15, 'op2': 17}, label='typestate:VAR'))
